@@ -21,6 +21,12 @@ class Infra(Exception):
     pass
 
 
+def log(msg):
+    if os.environ.get("VERIF_VERBOSE"):
+        sys.stderr.write("[%s] %s\n" % (time.strftime("%H:%M:%S"), msg))
+        sys.stderr.flush()
+
+
 def seed():
     try:
         return int(os.environ.get("VERIF_SEED", "1"))
@@ -71,6 +77,14 @@ def build_harness(work, race=False):
     """Rebuild the Go harness against /repo's current working tree (hooks on)."""
     out = work.path("harness_race" if race else "harness")
     cmd = ["go", "build", "-tags", "verif"]
+    if REPO != "/repo":
+        # self-test against a scratch copy of the repository (VERIF_REPO): same sources, alternate module file
+        mf = work.path("alt.mod")
+        with open(os.path.join(HARNESS, "go.mod")) as fh:
+            mod = fh.read().replace("=> /repo", "=> " + REPO)
+        with open(mf, "w") as fh:
+            fh.write(mod)
+        cmd.append("-modfile=" + mf)
     if race:
         cmd.append("-race")
     cmd += ["-o", out, "."]
@@ -161,7 +175,11 @@ class Verdict:
         self.t0 = time.time()
         self.cov = {}
         self.assumptions = []
-        os.makedirs(os.path.join(VERIF, "replay", prop), exist_ok=True)
+        rd = os.path.join(VERIF, "replay", prop)
+        os.makedirs(rd, exist_ok=True)
+        for f in os.listdir(rd):          # stale counterexamples of earlier runs of this tier
+            if f.startswith("violation_%s_" % tier):
+                os.remove(os.path.join(rd, f))
 
     def violation(self, record, what=""):
         n = len(self.violations) + 1
